@@ -167,18 +167,34 @@ func genHistory(r *Rand, idx int, o histOpts) Case {
 				}
 			}
 		}
+		sweep := pn != nil && r.Chance(30)
+		probe := func(adv int64) {
+			if sweep {
+				// every ordinary name of that directory: effects on OTHER names (a link's target, the other end of a
+				// rename) show up as stale cache entries too
+				for _, n := range goodNames {
+					s.Do(adv, root, &nfsx.Req{Proc: "LOOKUP", H: ph, Name: []byte(n)})
+					adv = 0
+				}
+				return
+			}
+			s.Do(adv, root, &nfsx.Req{Proc: "LOOKUP", H: ph, Name: pn})
+		}
 		if pn != nil {
 			if proc == "CREATE" && r.Chance(60) {
 				// the branch that changes an existing object: UNCHECKED with a size
 				q.How = 0
 				q.Sa.Size = u64p(PickU64(r, 0, 1, 5, 10, 100))
 			}
-			s.Do(pickAdv(r), root, &nfsx.Req{Proc: "LOOKUP", H: ph, Name: pn})
+			probe(pickAdv(r))
 			s.Tags["sandwiches"]++
+			if sweep {
+				s.Tags["sweep-sandwiches"]++
+			}
 		}
 		s.Do(pickAdv(r), pickCred(r), q)
 		if pn != nil {
-			s.Do(0, root, &nfsx.Req{Proc: "LOOKUP", H: ph, Name: pn})
+			probe(0)
 			if proc == "RENAME" {
 				s.Do(0, root, &nfsx.Req{Proc: "LOOKUP", H: q.H2, Name: q.Name2})
 			}
